@@ -501,6 +501,8 @@ class OraclesMixin:
                         self.violate("C14", "O14.4", f"pipeline accepted by every verb does not export on polars: {cls}: {str(res[2])[:160]}", cls=cls, op=op, tail=tail)
                     if "O6" in self.fam and op == "join":
                         self.violate("C06", "O6.export", f"join result does not export on {rep}: {cls}: {str(res[2])[:160]}", cls=cls, rep=rep, how=step.get("how"))
+                    if "O16" in self.fam and op == "join" and step.get("selfjoin"):
+                        self.violate("C16", "O16.2", f"self-join with a re-rooted copy does not export on {rep}: {cls}: {str(res[2])[:160]}", cls=cls, rep=rep, how=step.get("how"))
                     if "O16" in self.fam and op in REROOT_OPS:
                         self.violate("C16", "O16.1", f"`{op}` result does not export on {rep}: {cls}: {str(res[2])[:160]}", cls=cls, rep=rep, op=op, grouped=bool(m.grouping))
                     pt.real.pop(rep, None)
